@@ -256,14 +256,14 @@ CHECKS["C19"] = {
 
 CHECKS["C20"] = {
     "gen_ties": ["Builtins", "Sql"],
-    "level": "other",
+    "level": "proof",
     "lean_targets": ["Yae.Props.C20"],
     "streams": [
         {"name": "sql", "quick_n": 3000, "thorough_n": 40000,
          "oracles": ["sql-structure", "sql-quote", "sql-scalar", "sql-scalar-time-fraction", "sql-unreadable", "sql-panic", "process-crash"]},
         {"name": "num", "quick_n": 5000, "thorough_n": 50000},
     ],
-    "explanation": "ext/sql is modelled in full (criteria -> call tree -> type check against the SQL function table -> text with precedence-driven parentheses, fmtVal) together with a reference reader of the produced dialect with standard SQL precedence and an executable statement of C20 (c20Check). Proved: the scalar forms (fmtVal_bool/num/time/str), substitution of bound names and back-quoting of unbound ones (bound_name_substituted, unbound_name_is_column), the quoting round trip and injectivity (quote_roundtrip, quote_injective, string_literal_reads_back_partial), the parenthesisation rule and its table (paren_rule_partial, paren_table: OR under AND and AND/OR under NOT are wrapped, nothing else), the reader on those shapes (reader_parens). Not proved: the structural theorem readSql (toSql c) = flatten c — it is decided per case by c20Check in Lean and by an independent reader in Go on every generated tree, hence level 'other'. Tie: sql stream (random criteria trees to depth 4, adversarial strings and numbers, bound and unbound names, member access).",
+    "explanation": "ext/sql is modelled in full (criteria -> call tree -> type check against the SQL function table -> text with precedence-driven parentheses, fmtVal) together with a reference reader of the produced dialect with standard SQL precedence (tokenizer + precedence-climbing parser) and an executable statement of C20 (c20Check). PROVED (third session; Proofs/SqlDoc, SqlLex*, SqlParse*, SqlStruct*, Spec/SqlSide; about 4000 lines): C20.structural / c20Check_holds - whenever toSql produces a text and the decidable, purely syntactic side condition sideOK holds, the reference reader reads the text as a tree equal, up to the associativity of AND and of OR (flatten), to the meaning treeOf of the criteria under the run-time environment; the proof goes through the type checker (a statically resolved call refers to a registered function of the callee's name), emit, the tokenizer and the parser with the fuel they really use; no hypothesis on string operands (string_literal_reads_back: the reader's own scanner reads quote s back as one token whatever follows), negative numbers, times, nesting, or the compile-time environment; finite_number_is_literal: every finite number is written as -?digits(.digits)?. Each exclusion of sideOK is justified by a kernel-checked counterexample (toSql produces a text, c20Check = some false): NaN / +-Inf (SQL1), IN with an unbound list-typed name (SQL3), a back quote in a column name, an empty list literal, a one-element list outside IN, a nested application used as an operand of a condition (outside the criteria grammar the property quantifies over: operands are never parenthesised), a Cond whose operator is named AND/OR/NOT. Also: the scalar forms (fmtVal_*), substitution (bound_name_substituted, unbound_name_is_column), quote_roundtrip / quote_injective, paren_rule / paren_table. The function table, every formatter's text and the precedence table of the connectives are regenerated from the running code and tied (GenTie.Sql). Tie: sql stream (random criteria trees to depth 4, adversarial strings and numbers, bound and unbound names, member access; c20Check in Lean and an independent reader in Go).",
     "assumptions": ["string literals are in Go quote syntax; control characters use escapes MySQL reads differently (nothing escapes the quotes)"],
 }
 
